@@ -25,6 +25,16 @@ let acc_name = function
 
 (* the session store *)
 let cur : (fam -> n -> bool) ref = ref (full_store N0)
+let saved : (string, fam -> n -> bool) Hashtbl.t = Hashtbl.create 64
+
+(* lookups of a store built by many deletes cost one closure per delete: cache them *)
+let memo (f : fam -> n -> bool) : fam -> n -> bool =
+  let t = Hashtbl.create 4096 in
+  fun fa i -> let key = (fa, int_of_n i) in
+    match Hashtbl.find_opt t key with Some v -> v | None -> let v = f fa i in Hashtbl.add t key v; v
+(* indices printed by dump / ans: None = all of 0..head *)
+let idx : int list option ref = ref None
+let indices head = match !idx with Some l -> List.filter (fun i -> i <= head) l | None -> List.init (head + 1) (fun i -> i)
 
 let parse_rot (s : string) : n -> bool =
   if s = "all" then (fun _ -> true) else if s = "none" then (fun _ -> false)
@@ -36,9 +46,9 @@ let parse_logs (s : string) : (n * n) list =
     | [bk; v] -> (n bk, n v) | _ -> failwith "log") (split_on ',' s)
 
 let dump head =
-  let upto = nat_of_int (int_of_n head + 1) in
+  let is = indices (int_of_n head) in
   List.iter (fun f ->
-    if f <> Bloom then print_endline (fam_name f ^ " " ^ bits (store_bits !cur f upto))
+    if f <> Bloom then print_endline (fam_name f ^ " " ^ bits (List.map (fun i -> !cur f (n_of_int i)) is))
     else begin
       let ws = ref [] in
       let w = ref 0 in
@@ -73,7 +83,10 @@ let () =
     | ["minage"; k; fy] -> print_endline (if min_age_ok (n k) (n fy) then "1" else "0")
     | ["served"; st; height; x] -> print_endline (if state_served (n st) (n height) (n x) then "1" else "0")
     (* session store *)
-    | ["init"; head] -> cur := full_store (n head); print_endline "ok"
+    | ["save"; id] -> Hashtbl.replace saved id !cur; print_endline "ok"
+    | ["load"; id] -> cur := Hashtbl.find saved id; print_endline "ok"
+    | ["init"; head] -> cur := memo (full_store (n head)); print_endline "ok"
+    | ["idx"; l] -> idx := (if l = "all" then None else Some (List.map int_of_string (split_on ',' l))); print_endline "ok"
     | ["ext"; h] ->
         cur := set_block !cur (n h) true;
         let hi = int_of_string h in
@@ -85,16 +98,16 @@ let () =
         let pl = prune_plan !cur (n head) (n e) (n k) (parse_rot rot) in
         let ok = plan_oldest_kept !cur (n head) (n e) (n k) in
         let ob = (match oldest !cur (n head) with None -> "-" | Some o -> ni o) in
-        cur := interrupted !cur pl (nat_of_int (int_of_string m));
+        cur := memo (interrupted !cur pl (nat_of_int (int_of_string m)));
         print_endline (string_of_int (List.length pl) ^ " " ^ ni ok ^ " " ^ ob)
     | ["oldest"; head] ->
         print_endline (match oldest !cur (n head) with None -> "-" | Some o -> ni o)
     | ["dump"; head] -> dump (n head)       (* 10 lines *)
     | ["ans"; head] ->                      (* 20 lines *)
-        let upto = int_of_n (n head) + 1 in
+        let is = indices (int_of_n (n head)) in
         List.iter (fun a ->
           print_endline (acc_name a ^ " " ^
-            bits (List.init upto (fun i -> answers !cur a (n_of_int i))))) all_accs
+            bits (List.map (fun i -> answers !cur a (n_of_int i)) is))) all_accs
     | ["canrev"; h] -> print_endline (if can_revert !cur (n h) then "1" else "0")
     | ["ro"; x; hv; lg] -> print_endline (ni (read_old (parse_logs lg) (!cur Hist) (n hv) (n x)))
     | ["rn"; x; lg] -> print_endline (ni (read_new (parse_logs lg) (!cur HistNew) (n x) N0))
